@@ -5,6 +5,7 @@ import (
 	"encoding/json"
 	"fmt"
 	"time"
+	"unsafe"
 
 	"github.com/pion/interceptor"
 	"github.com/pion/interceptor/verifh/hk"
@@ -37,6 +38,9 @@ type rsink struct {
 //go:norace
 func (s *rsink) Write(h *rtp.Header, p []byte, _ interceptor.Attributes) (int, error) {
 	vsched.Yield() // a write to the transport is an observable event: other threads may run before it
+	// the order in which packets reach the transport is observable (a held retransmission reads its copy later):
+	// it is folded into the happens-before fingerprint so that such schedules are not merged
+	vsched.HBNote(unsafe.Pointer(s), uint64(s.n))
 	rec := hk.SentRTP{Header: h.Clone(), Payload: append([]byte(nil), p...), Thread: vsched.CurrentID()}
 	s.n++
 	if vsched.CurrentIsApp() {
